@@ -208,6 +208,13 @@ impl SwiftField for Field59A {
 
         let bic = parse_bic(lines[bic_line_idx])?;
 
+        // Nothing may follow the identifier code: an extra line is not part of the format
+        if lines.len() > bic_line_idx + 1 {
+            return Err(ParseError::InvalidFormat {
+                message: "Field 59A has an unexpected line after the BIC".to_string(),
+            });
+        }
+
         Ok(Field59A { account, bic })
     }
 
